@@ -296,10 +296,16 @@ def _c13_3_case(n_pollers, polls, run_afters, crash_budget, max_waits,
             real_capture = ds.DefaultScheduler._capture_scheduled_job
 
             def capture(job):
+                # what this capturer saw as the previous capture: a capture
+                # whose transaction was rolled back (crash before the
+                # commit) was never visible to anybody
+                seen = job.captured_at
                 ok = real_capture(job)
                 if ok:
                     info['captures'].append((acts.me().name,
                                              job.captured_at))
+                    info.setdefault('seen', []).append(
+                        (seen, job.captured_at))
                 return ok
             ds.DefaultScheduler._capture_scheduled_job = staticmethod(capture)
             real_delete = ds.DefaultScheduler._delete_scheduled_job
@@ -390,9 +396,11 @@ def _c13_3_case(n_pollers, polls, run_afters, crash_budget, max_waits,
                 return
             # (3) a re-capture only after the capture timeout
             caps = info['captures']
-            for (n1, c1), (n2, c2) in zip(caps, caps[1:]):
+            for prev, mine in info.get('seen', []):
+                if prev is None:
+                    continue
                 reach('recaptured')
-                check(c2 >= c1 + tmo, 'recapture-before-timeout',
+                check(mine >= prev + tmo, 'recapture-before-timeout',
                       {'signature': sig + 'recapture-early'})
             # (4) once a capturer has deleted the job nobody captures again
             if info['deletes']:
@@ -459,7 +467,8 @@ def _c13_3_case(n_pollers, polls, run_afters, crash_budget, max_waits,
                      'in-memory dispatcher of instance 0 (<=2 wake-ups), 1 '
                      'store poller of instance 1 (1 poll); every DB '
                      'statement a hand-off; all interleavings; symbolic '
-                     'clock; no crash',
+                     'clock; plus one crash of the dispatcher or the poller '
+                     'at any hand-off (dispatcher limited to one wait)',
             'thorough': 'rollback with 2 pollers; commit with the poller '
                         'polling twice and 3 dispatcher wake-ups; commit '
                         'with one crash of the dispatcher or the poller at '
@@ -485,7 +494,17 @@ def c13_3(ctx):
         yield Case('two-jobs/E+D0', _c13_3_case(0, 0, 'sym', 0, 3,
                                                 commits=True, two_jobs=True),
                    needed=['two-jobs'])
+        # one crash of the dispatcher or the poller at any hand-off (store
+        # statement, commit, entering the job's function)
+        yield Case('commit/E+D0+P1/crash1', _c13_3_case(1, 1, 'sym', 1, 1,
+                                                        commits=True),
+                   needed=['invoked', 'crashed'], shard_depth=12, procs=12,
+                   max_paths=2000000)
     else:
+        yield Case('commit/E+D0+P1/crash1', _c13_3_case(1, 1, 'sym', 1, 2,
+                                                        commits=True),
+                   needed=needed + ['crashed'], shard_depth=14, procs=14,
+                   max_paths=2000000)
         yield Case('rollback/E+D0+P1+P2', _c13_3_case(2, 1, 'sym', 0, 3,
                                                       commits=False),
                    needed=['rolled-back'], shard_depth=10, procs=14)
@@ -497,10 +516,6 @@ def c13_3(ctx):
                                                    commits=True,
                                                    two_jobs=True),
                    needed=['two-jobs'], shard_depth=12, procs=14)
-        yield Case('commit/E+D0+P1/crash1', _c13_3_case(1, 1, 'sym', 1, 2,
-                                                        commits=True),
-                   needed=needed + ['crashed'], shard_depth=14, procs=14,
-                   max_paths=2000000)
 
 
 @obligation(
